@@ -9,4 +9,10 @@ theorem serde_roundtrip (l : Nat) (h : l ≤ 126) : Level.new l = some l := by
   unfold Level.new; have : Level.maxImplicit = 126 := by decide
   simp [this, h]
 
+/-- ... and reading any other number fails: deserialisation is `Level::new` on the number read (repaired form,
+    finding D11 — the derived implementation accepted every `u8`), so no format can produce a `Level` above 126 -/
+theorem serde_rejects (n : Nat) (h : 126 < n) : Level.new n = none := by
+  unfold Level.new; have : Level.maxImplicit = 126 := by decide
+  simp [this]; omega
+
 end UBidi.Props.C20
